@@ -33,17 +33,39 @@ def regex_nodes(g):
     return out
 
 
+def class_patterns(g, data):
+    """compiled regexes of the grammar that can apply to an input of this type (str patterns for text, bytes for bytes)"""
+    pats = []
+    for n in regex_nodes(g):
+        src = gen.regex_src(n)
+        if isinstance(data, str):
+            if n["kind"] == "text":
+                pats.append(re.compile(src))
+        elif n["kind"] == "bytes":
+            pats.append(re.compile(src.encode("latin-1")))
+        else:
+            pats.append(re.compile(src.encode("utf-8")))
+    return pats
+
+
+def leaf_units(kind, val, data):
+    """what a leaf contributes to an input of this type"""
+    if isinstance(data, str):
+        return "".join(chr(c) for c in val)
+    return bytes(val) if kind == "bytes" else "".join(chr(c) for c in val).encode("utf-8")
+
+
 def in_class(case, w):
     """Narrow on purpose: one derivation, and no regex of the grammar could have munched further at a leaf's position."""
     ders = case["enum"].words.get(w, [])
     if len(ders) != 1:
         return False
-    if not isinstance(w, str):
-        return True  # bytes/bit grammars of the family carry no regexes
-    pats = [re.compile(gen.regex_src(n)) for n in regex_nodes(case["g"])]
+    if not isinstance(w, (str, bytes)):
+        return True  # bit grammars of the family carry no regexes
+    pats = class_patterns(case["g"], w)
     pos = 0
     for kind, val in leaves_of(ders[0]):
-        text = "".join(chr(c) for c in val)
+        text = leaf_units(kind, val, w)
         rest = w[pos:]          # a terminal is matched against the rest of the input on its own (no left context)
         for p in pats:
             if p.fullmatch(text):
@@ -268,7 +290,6 @@ def run(tier, seed):
         gid = 5000 + k
         tt.grammar(gid, g)
         tt.new_trace({"spec": spec, "gid": gid})
-        pats = [re.compile(gen.regex_src(n)) for n in regex_nodes(g)]
         for it in res["items"]:
             n_rt += 1
             if it["status"] == "timeout":
@@ -277,13 +298,14 @@ def run(tier, seed):
             data = it["data"]
             # class: the emitted tree's own regex leaves are maximal munch in the output
             ok_class = True
-            if isinstance(data, str) and pats:
+            pats = class_patterns(g, data) if isinstance(data, (str, bytes)) else []
+            if pats:
                 pos = 0
                 for kind, val in leaves_of(it["emitted"]):
-                    text = "".join(chr(c) for c in val)
+                    text = leaf_units(kind, val, data)
                     for p in pats:
-                        m = p.match(data, pos)
-                        if m is not None and m.end() > pos + len(text):
+                        m = p.match(data[pos:])
+                        if m is not None and m.end() > len(text):
                             ok_class = False
                     pos += len(text)
             if not ok_class:
